@@ -18,6 +18,7 @@ pub enum RTy {
     Unit,
     Rng,
     Scheme,
+    Curve,
     /// a wrapper type of src/*.rs, by its Rust name
     W(String),
     Opt(Box<RTy>),
@@ -42,6 +43,7 @@ impl RTy {
             RTy::Unit => "unit".into(),
             RTy::Rng => "rng".into(),
             RTy::Scheme => "scheme".into(),
+            RTy::Curve => "curve".into(),
             RTy::W(n) => return crate::wrappers::coq_type(n),
             RTy::Opt(t) => format!("(option {})", t.coq()?),
             RTy::Res(t) => format!("(res {})", t.coq()?),
@@ -134,6 +136,9 @@ pub fn rty_of(t: &syn::Type, generics: &[(String, String)]) -> RTy {
         }
         if name == "SignatureSchemes" {
             return RTy::Scheme;
+        }
+        if name == "Bls12381" {
+            return RTy::Curve;
         }
         if crate::wrappers::wrapper(&name).is_some() {
             return RTy::W(name);
